@@ -373,7 +373,8 @@ package otp
 // suite string parser (token level). part(s, sep, i) / nparts(s, sep) are strings.Split's vocabulary.
 
 //@ macro tgunit(g) = g[len(g)-1]
-//@ macro tgok(g) = len(g) >= 2 && isint(g[:len(g)-1]) && (tgunit(g) == 'S' || tgunit(g) == 'M' || tgunit(g) == 'H')
+//@ macro tgok(g) = len(g) >= 2 && isint(g[:len(g)-1]) && (tgunit(g) == 'S' || tgunit(g) == 'M' || tgunit(g) == 'H') &&
+//@ |   -2562047788015215 <= intval(g[:len(g)-1]) && intval(g[:len(g)-1]) <= 2562047788015215
 //@ macro tgmult(g) = tgunit(g) == 'S' ? 1 : (tgunit(g) == 'M' ? 60 : 3600)
 //@ func otp.parseTimeGranularity(g) (r, err)
 //@   ensures[iff] err == nil <==> tgok(g)
